@@ -1,4 +1,4 @@
-\* barrier messages and group deletion (come-back) into a time window
+\* barrier messages and group deletion into a time window, small bound for the quick tier
 SPECIFICATION BSpec
 CONSTANTS
     Groups = {"a"}
@@ -6,8 +6,8 @@ CONSTANTS
     Everys = {0, 1, 2, 3, 4, 5}
     Aligns = {FALSE, TRUE}
     Fills = {FALSE, TRUE}
-    MaxTime = 5
-    MaxPoints = 4
+    MaxTime = 4
+    MaxPoints = 3
     MaxBarriers = 2
     PurgeGuard = TRUE
 INVARIANTS
